@@ -95,6 +95,23 @@ class SymExec:
         except AnalysisError:
             return Opaque(e)
 
+    def same_opaque(self, a, b):
+        """two opaque values that carry the same tag (kind and quantitative content): either may stand for both"""
+        ta, tb = a.tag, b.tag
+        if ta is None or tb is None or isinstance(ta, str) or isinstance(tb, str):
+            return False
+        da, db = getattr(ta, '__dict__', None), getattr(tb, '__dict__', None)
+        if da is None or db is None or set(da) != set(db):
+            return False
+        for k in da:
+            x, y = da[k], db[k]
+            if isinstance(x, Alg) and isinstance(y, Alg):
+                if not x.eq(y):
+                    return False
+            elif x is not y and x != y:
+                return False
+        return True
+
     # ---- flags ------------------------------------------------------------------------------------
     def flag_test(self, t):
         """True / False when the test is decided by the flag valuation, else None"""
@@ -208,6 +225,8 @@ class SymExec:
                 if isinstance(a, Alg) and isinstance(b, Alg) and a.eq(b):
                     merged[k] = a
                 elif a is b and a is not None:
+                    merged[k] = a
+                elif isinstance(a, Opaque) and isinstance(b, Opaque) and self.same_opaque(a, b):
                     merged[k] = a
                 elif isinstance(a, Alg) or isinstance(b, Alg):
                     merged[k] = Alg(Rat.sym('%s@%d' % (k, s.lineno)))
